@@ -1,6 +1,7 @@
 (* mpload_driver.ml — runs the extracted typed-load specification (coq/MpLoadModel.v: load_bytes =
    reference decoder, then load_spec) on the line protocol of harness/drv_mpload.cpp:
-     ld <m|s> <pol> <shape> <hexdoc>   ->  OK <tree> | ERR <cat> | UNMODELLED
+     ld  <m|s> <pol> <shape> <hexdoc>           ->  OK <tree> | ERR <cat> | UNMODELLED
+     ldp <m|s> <pol> <shape> <prior> <hexdoc>   the same into a target that holds <prior> (load_bytes_into)
    UNMODELLED: a map of the document that meets a std::map target has a key of another class than the
    target's key type, or two keys that are not different (`modelled` of MpLoadModel.v is false) *)
 
@@ -71,6 +72,10 @@ let parse_shape (t : string) : shape =
       incr p;
       SArr (nat_of_int cnt, e)
     | '<' ->
+      let mode =
+        if !p + 1 < String.length t && t.[!p + 1] = '|' && (t.[!p] = 'c' || t.[!p] = 'o' || t.[!p] = 'u') then begin
+          let m = (match t.[!p] with 'o' -> MOnlyExist | 'u' -> MUpdate | _ -> MClean) in p := !p + 2; m end
+        else MClean in
       let k = go () in
       let ks = (match k with SStr -> KSStr | SInt kind -> KSInt kind | _ -> failwith "map keys are strings or integers") in
       if t.[!p] <> '=' then failwith "bad map shape";
@@ -78,7 +83,7 @@ let parse_shape (t : string) : shape =
       let e = go () in
       if t.[!p] <> '>' then failwith "bad map shape";
       incr p;
-      SMap (ks, e)
+      SMap (mode, ks, e)
     | '{' ->
       if t.[!p] = '}' then (incr p; SClass []) else begin
         let ms = ref [] in
@@ -100,6 +105,66 @@ let parse_shape (t : string) : shape =
   if !p <> String.length t then failwith "trailing shape text";
   s
 
+(* the content of a target, in the tree syntax the drivers print, read along the shape *)
+let parse_prior (s : shape) (t : string) : tv =
+  let p = ref 0 in
+  let token () =
+    let q = ref !p in
+    while !q < String.length t && not (List.mem t.[!q] [';'; ']'; '}'; '=']) do incr q done;
+    let r = String.sub t !p (!q - !p) in p := !q; r in
+  let expect c = if !p >= String.length t || t.[!p] <> c then failwith "bad prior"; incr p in
+  let int_of tok = let c = String.index tok ':' in z_of_shex (String.sub tok (c + 1) (String.length tok - c - 1)) in
+  let hexpart tok = parse_hexbytes (String.sub tok 1 (String.length tok - 1)) in
+  let rec go (s : shape) : tv =
+    match s with
+    | SNil -> expect 'n'; TNil
+    | SBool -> let k = token () in TBool (k = "T")
+    | SInt k -> TInt (k, int_of (token ()))
+    | SF32 -> let k = token () in TF32 (n_of_hex (String.sub k 1 (String.length k - 1)))
+    | SF64 -> let k = token () in TF64 (n_of_hex (String.sub k 1 (String.length k - 1)))
+    | SStr -> TStr (hexpart (token ()))
+    | SBytes -> TBytes (hexpart (token ()))
+    | SVec e -> TArr (items (fun () -> go e))
+    | SVecBool -> TArr (items (fun () -> go SBool))
+    | SArr (_, e) -> TArr (items (fun () -> go e))
+    | STuple ss ->
+      expect '[';
+      let r = List.mapi (fun i s' -> if i > 0 then expect ';'; go s') ss in
+      expect ']'; TArr r
+    | SClass ms ->
+      expect '{';
+      let r = List.mapi (fun i (name, s') -> if i > 0 then expect ';'; ignore (token ()); expect '='; (TStr name, go s')) ms in
+      expect '}'; TObj r
+    | SMap (_, ks, e) ->
+      expect '{';
+      if t.[!p] = '}' then (incr p; TObj []) else begin
+        let r = ref [] in
+        let fin = ref false in
+        while not !fin do
+          let k = token () in
+          expect '=';
+          let key = (match ks with KSStr -> TStr (hexpart k) | KSInt kind -> TInt (kind, int_of k)) in
+          let x = go e in
+          r := (key, x) :: !r;
+          if t.[!p] = ';' then incr p else (expect '}'; fin := true)
+        done;
+        TObj (List.rev !r)
+      end
+  and items (f : unit -> tv) : tv list =
+    expect '[';
+    if t.[!p] = ']' then (incr p; []) else begin
+      let r = ref [] in
+      let fin = ref false in
+      while not !fin do
+        r := f () :: !r;
+        if t.[!p] = ';' then incr p else (expect ']'; fin := true)
+      done;
+      List.rev !r
+    end in
+  let v = go s in
+  if !p <> String.length t then failwith "trailing prior text";
+  v
+
 let rec tree_text (v : tv) : string =
   match v with
   | TNil -> "n"
@@ -118,17 +183,18 @@ let () =
       let line = input_line stdin in
       let t = Array.of_list (split_on ' ' line) in
       (try
-        if Array.length t = 5 && t.(0) = "ld" then begin
+        if (Array.length t = 5 && t.(0) = "ld") || (Array.length t = 6 && t.(0) = "ldp") then begin
           let o = { o_mismatch = pol t.(2).[0]; o_overflow = pol t.(2).[1] } in
           let s = parse_shape t.(3) in
-          let data = parse_hexbytes t.(4) in
+          let init = if t.(0) = "ldp" then parse_prior s t.(4) else default_of s in
+          let data = parse_hexbytes t.(Array.length t - 1) in
           print_endline
             (match decode data with
              | Some (d, _) when not (modelled s d) -> "UNMODELLED"
              | _ ->
-               (match load_bytes narrow widen o s data with
+               (match load_bytes_into narrow widen o s init data with
                 | LErr e -> "ERR " ^ serr_cat e
-                | r -> "OK " ^ tree_text (fill s r)))
+                | r -> "OK " ^ tree_text (keep init r)))
         end else print_endline "UNSUPPORTED"
       with Failure m -> Printf.printf "EXC %s\n" m
          | Invalid_argument m -> Printf.printf "EXC %s\n" m
